@@ -285,6 +285,11 @@ def bisect_values(c2m, cs, ex, d, bad0):
 
 
 # ------------------------------------------------------------------ B: generated programs
+# generator shape -> signature of the known finding whose witness exhibits it
+KNOWN_SHAPES = {'nested-postdec-while': 'prog:corpus:c07_prog_nested_loop.c',
+                'mixed-unit-bitfields': 'prog:corpus:c07_prog_mixed_bitfield_init.c'}
+
+
 def build_ext(d):
     so = os.path.join(d, 'libc07ext.so')
     if not os.path.exists(so):
@@ -351,18 +356,21 @@ def shrink_program(c2m, text, d, use_ext, engine):
 def part_programs(chk, c2m, d, quick):
     import gen_c07_prog as P
     build_ext(d)
-    n = 60 if quick else 1500
+    n = 30 if quick else 1500
     findings = []
     invalid = 0
     texts = []
     cp = os.path.join(vlib.VERIF, 'corpus')
     for f in sorted(os.listdir(cp)) if os.path.isdir(cp) else []:
         if f.startswith('c07_prog') and f.endswith('.c'):
-            texts.append((f, open(os.path.join(cp, f)).read(), ['corpus']))
+            texts.append((f, open(os.path.join(cp, f)).read(), ['corpus']))   # name = file name (contains 'corpus' marker below)
+    # a known finding of another component (mir-gen) is identified by its witness program in corpus/;
+    # while it is listed, the generator does not emit that shape, the witness itself still runs
+    avoid = [shape for shape, sig in KNOWN_SHAPES.items() if any(k == sig for k, _ in chk.known)]
     for i in range(n):
         rng = chk.rng('prog%d' % i)
         use_ext = rng.random() < 0.6
-        text, feats = P.generate(rng, use_ext=use_ext, size=1.0)
+        text, feats = P.generate(rng, use_ext=use_ext, size=1.0, avoid=avoid)
         texts.append(('gen%d' % i, text, feats))
     for name, text, feats in texts:
         use_ext = 'ext_' in text
@@ -384,7 +392,12 @@ def part_programs(chk, c2m, d, quick):
             findings.append((name, text, use_ext, bad, ref, res))
     chk.dist('B_programs', 'valid', len(texts) - invalid)
     chk.dist('B_programs', 'discarded', invalid)
-    for name, text, use_ext, bad, ref, res in findings[:3]:
+    for name, text, use_ext, bad, ref, res in [f for f in findings if 'corpus' in f[0]]:
+        # corpus programs are minimal witnesses: stable signature = file name
+        chk.finding('prog:corpus:' + name, dict(kind='prog', program=text, original=text, use_ext=use_ext,
+                                                engines=[b[0] for b in bad], what=[b[1] for b in bad], gcc=list(ref)),
+                    'corpus program %s: c2m %s: %s' % (name, ','.join(b[0] for b in bad), bad[0][1]))
+    for name, text, use_ext, bad, ref, res in [f for f in findings if 'corpus' not in f[0]][:3]:
         small = shrink_program(c2m, text, d, use_ext, bad[0][0])
         h = hashlib.sha1(small.encode()).hexdigest()[:12]
         chk.finding('prog:' + h, dict(kind='prog', program=small, original=text, use_ext=use_ext, engines=[b[0] for b in bad],
@@ -407,9 +420,14 @@ def run(chk):
                                 'struct copies, calls, the engines']
     with Scratch() as d:
         c2m, model = tools(d)
-        n1, bad_types = part_types(chk, c2m, model, d)
-        n2, bad_values, model_breaks = part_values(chk, c2m, model, d, quick)
-        n3, bad_progs = part_programs(chk, c2m, d, quick)
+        parts = os.environ.get('C07_PARTS', 'AB')      # development switch; the registered command runs everything
+        n1 = n2 = n3 = 0
+        model_breaks = []
+        if 'A' in parts:
+            n1, bad_types = part_types(chk, c2m, model, d)
+            n2, bad_values, model_breaks = part_values(chk, c2m, model, d, quick)
+        if 'B' in parts:
+            n3, bad_progs = part_programs(chk, c2m, d, quick)
     chk.cov['rule'] = ('A1: _Generic type id of every operator on all 15x15 arithmetic type pairs and of typed integer constants; '
                        'A2: each UB-free typed operator application is evaluated in 3 constant contexts and 2 run-time forms under '
                        '7 c2m engine configurations and gcc (evaluations = cases x 5 x 8); every case is non-trivial; distinct by case; '
